@@ -19,10 +19,11 @@ RULE = ('seeded schedules: IMU stamps uniform / jittered / with 1..3 data gaps, 
         'intervals, nextafter neighbours of stamps / start / end, outside the span, near the tail, denser than the IMU, shared '
         'between sensors, empty streams, measurements None / []; time_step from 0.1x the IMU interval to 2x the span; both '
         'altitude modes; sensor models none / bias / full; non-trivial = anything but (uniform IMU, all epochs on stamps >= 1 '
-        'interval apart, time_step 1 s), the one schedule of the existing tests; distinct = distinct seeds')
+        'interval apart, time_step 1 s), the one schedule of the existing tests; distinct = distinct seeds'
+        ' Round 3: every third schedule is run a second time with the same measurement / model objects and judged again.')
 ASSUMPTIONS = ['termination is decided as bounded progress: while-header visits <= 2 (increments + epochs in span) + 4 (sys.monitoring), '
                'never by wall clock', 'two streams of the same measurement class are outside the documented interface and not generated']
-REQUIRED_OBS = ['reruns_with_same_objects', 'runs_completed', 'loop_iterations', 'integrate_events', 'predict_events', 'hit_events', 'correct_events',
+REQUIRED_OBS = ['reruns_with_same_objects', 'schedules_with_permuted_tables', 'runs_completed', 'loop_iterations', 'integrate_events', 'predict_events', 'hit_events', 'correct_events',
                 'schedules_with_clusters', 'schedules_with_gaps', 'schedules_without_measurements', 'epochs_inside_total',
                 'time_step_below_imu_interval', 'offline_checks']
 REQUIRED_CLASSES = {'all': ['uniform', 'jitter', 'gaps']}
@@ -91,6 +92,7 @@ def run_case(case):
     obs['miss_events'] = sum(e['kind'] == 'compute_matrices' and not e['hit'] for e in ev)
     obs['correct_events'] = sum(e['kind'] == 'correct' for e in ev)
     obs['epochs_inside_total'] = d['epochs_inside']
+    obs['schedules_with_permuted_tables'] = int(bool(d.get('tables_permuted')))
     obs['schedules_with_clusters'] = int(d['max_epochs_in_one_interval'] >= 2)
     obs['schedules_with_gaps'] = int(d['imu'] == 'gaps')
     obs['schedules_without_measurements'] = int(d['measurements_arg'] != 'list')
